@@ -258,7 +258,12 @@ def run_case(case):
 
   rec = core.Rec(case)
   rng = np.random.default_rng(case["seed"] + 7)
-  xml, mjm, feat = S.build(case["seed"], PROFILE, user_act=int(rng.integers(0, 3) > 0), delay_act=int(rng.integers(0, 2)), delay_sens=int(rng.integers(0, 2)), plain_motor=1, nkey=case["nkey"])
+  if case["seed"] % 3 == 0:
+    # few actuators, each with a multi-dimensional activation: guarantees na > nu
+    P = dict(PROFILE, actuators=0)
+    xml, mjm, feat = S.build(case["seed"], P, user_act=2, delay_act=int(rng.integers(0, 2)), delay_sens=int(rng.integers(0, 2)), plain_motor=0, nkey=case["nkey"])
+  else:
+    xml, mjm, feat = S.build(case["seed"], PROFILE, user_act=int(rng.integers(0, 3) > 0), delay_act=int(rng.integers(0, 2)), delay_sens=int(rng.integers(0, 2)), plain_motor=1, nkey=case["nkey"])
   if mjm is None or mjm.nkey == 0:
     rec.rejected = "mujoco compile"
     return rec.result()
